@@ -76,6 +76,8 @@ def run(ctx):
     # ---- T -----------------------------------------------------------------------------
     recs, meta = pc.real_records(ctx)
     for m in meta:
+        m.pop("_layout", None)          # (the file layout of these runs is judged by C10)
+    for m in meta:
         if "exc" in m:
             ctx.violation(f"run:exception:{m['input']}", f"{m}", m)
         elif m.get("groups", 0) >= 1:
@@ -85,11 +87,11 @@ def run(ctx):
         if inv in pc.C09_DIAG:
             ctx.note(f"MODEL-DRIFT: {inv} not followed on {len(ms)} runs (mechanism differs; verdict is the bracket)")
             continue
-        if inv == "ChargeGrid":
-            continue      # the grid clause belongs to C10
         if inv == "ChargeRows":
-            # the printed charge table: reported here when it fails although the computed grid is right (C10 otherwise)
+            # the printed charge table: reported when it fails although the computed grid is right (ChargeGrid otherwise)
             ms = [m for m in ms if m not in viol.get("ChargeGrid", [])]
+        # (ChargeGrid - a charge is reported at each pH of the requested grid, end points included - is a clause of C09's
+        # statement as well as of C10's)
         for m in ms[:3]:
             ctx.violation(f"trace:{inv}:{m['input']}", f"{inv} violated on {m}", m)
     ctx.sample({"run": meta[0]})
